@@ -161,8 +161,25 @@ static inline bool post_release(void)
 #else
 #define VP_BUILD_STATE() g_had_output = false; g_had_def = false; VP_EXTRA_STATE(upipe)
 #endif
+#ifndef VP_LAZY
+#define VP_LAZY 0
+#endif
+/* -DVP_LAZY=1 (with VP_WITH_OUTPUT=0): the pipe has no output yet; the application connects one when the pipe asks for it
+ * (need_output event), as uprobe_selflow-style probes do: the buffer that triggered the event must still be delivered */
+static int g_lazy_calls;
+static int stub_probe_lazy_tpl(struct uprobe *uprobe, struct upipe *upipe, int event, va_list args)
+{
+#if VP_HAS_OUTPUT
+    if (event == UPROBE_NEED_OUTPUT && VP_LAZY && upipe == g_pipe && VP_S(upipe)->output == NULL) {
+        g_lazy_calls++;
+        upipe_set_output(upipe, &gs_out);
+        return UBASE_ERR_NONE;
+    }
+#endif
+    return stub_probe_throw(uprobe, upipe, event, args);
+}
 #define VP_BUILD() \
-    vs_reset_all(); VP_INIT_MGR(); g_extra_held = 0; \
+    vs_reset_all(); VP_INIT_MGR(); g_extra_held = 0; g_lazy_calls = 0; if (VP_LAZY) gs_probe.uprobe_throw = stub_probe_lazy_tpl; \
     struct upipe *upipe = VP_ALLOC(&VP_MGR, &gs_probe); \
     VASSUME(upipe != NULL); g_pipe = upipe; \
     VP_BUILD_STATE(); \
@@ -187,6 +204,11 @@ void h_input(void)
     VPOST(post_input(upipe));
 #if VP_ONE_TO_ONE && VP_HAS_OUTPUT
     VPOST(gs_out_inputs - g_inputs_old != 1 || VP_CONTENT_OK(&g_in_copy, &gs_out_last_copy, upipe));      /* only what the pipe is documented to change */
+#if VP_LAZY
+    /* an output connected on demand: it is offered the definition and, if it accepts it, gets the buffer (these pipes never drop) */
+    VPOST(!g_had_def || (g_lazy_calls == 1 && VP_S(upipe)->output == &gs_out && gs_out_setdef > g_setdef_old));
+    VPOST(!g_had_def || gs_ev_fatal > 0 || gs_out_inputs - g_inputs_old == (gs_out_acc_ptr != NULL ? 1 : 0));
+#endif
 #endif
     VCANARY();
 }
